@@ -281,6 +281,8 @@ class J1939_22:
             if dest_address == ParameterGroupNumber.Address.GLOBAL:
 
                 # send BAM
+                if pgn.is_pdu1_format:
+                    pgn.pdu_specific = 0  # the PGN of a PDU1 message contains no destination address
                 self.__send_tp_bam(priority, src_address, session_num, pgn.value, message_size, num_segments)
 
                 # init new buffer for this connection
